@@ -79,3 +79,17 @@ package decorator
 //@ ensures[C03] consumed(c) == len(c)
 //@ use nlast_hold(res(StopLossStrategy_Compute), len(res(StopLossStrategy_Compute)) - len(arg(ActionsToAnnotations, 0, 0)), len(res(StopLossStrategy_Compute)) - len(arg(ActionsToAnnotations, 0, 0)))
 //@ use nlast_skip(res(StopLossStrategy_Compute), arg(ActionsToAnnotations, 0, 0), len(res(StopLossStrategy_Compute)) - len(arg(ActionsToAnnotations, 0, 0)))
+
+// ---- generated constructor contracts (govc genctor; do not edit by hand) ----
+// what each New* function returns, read off its literal: fresh, pairwise separate sub-objects, fields equal to the
+// arguments / constants they are initialised with (transitively through nested constructors); proved, not assumed
+//@ func NewInverseStrategy
+//@ ensures[C06] "fresh-and-separate-objects" fresh(result)
+
+//@ func NewNoLossStrategy
+//@ ensures[C06] "fresh-and-separate-objects" fresh(result)
+
+//@ func NewStopLossStrategy
+//@ ensures[C06] "fresh-and-separate-objects" fresh(result)
+//@ ensures[C06] "configured-as-given" result.Percentage == percentage
+// ---- end of generated constructor contracts ----
